@@ -200,3 +200,38 @@ func (p Poly) String() string {
 }
 
 func itoa(n int) string { return big.NewInt(int64(n)).String() }
+
+// ZeroVars: p with every variable of the set put to zero (monomials containing one of them vanish).
+func (p Poly) ZeroVars(zero map[string]bool) Poly {
+	if len(zero) == 0 {
+		return p
+	}
+	r := Poly{}
+	for k, v := range p {
+		drop := false
+		if k != "" {
+			for _, x := range strings.Split(k, "*") {
+				if zero[x] {
+					drop = true
+				}
+			}
+		}
+		if !drop {
+			r[k] = new(big.Int).Set(v)
+		}
+	}
+	return r
+}
+
+// singleVar: p is exactly one variable with coefficient one.
+func (p Poly) singleVar() (string, bool) {
+	if len(p) != 1 {
+		return "", false
+	}
+	for k, v := range p {
+		if k != "" && !strings.Contains(k, "*") && v.Cmp(big.NewInt(1)) == 0 {
+			return k, true
+		}
+	}
+	return "", false
+}
